@@ -70,3 +70,6 @@ SPEC = Spec(
                 "for every content of each length; Engine A (CrossHair) runs the real hashing stream / driver / dos2unix / legacy stream on symbolic "
                 "bytes and read sizes.",
 )
+
+MANIFEST = {"technique": "SMT (z3, bit-vectors + IEEE-754 Float64) over the real istextblock executed on z3-valued duck types, cvc5 cross-check of the "
+                         "threshold lemma; CrossHair symbolic execution of the real hashing stream / driver / dos2unix code"}
